@@ -38,6 +38,7 @@ func init() {
 		Run: runC03,
 	})
 	c03controls()
+	g4c03controls()
 }
 
 type c03ctx struct {
@@ -1257,6 +1258,7 @@ func (x *c03ctx) runK4() {
 	c := x.c
 	unprot := x.unprotected()
 	n := 0
+	evalBy := map[*ssa.Function]int{}
 	for _, f := range x.fns {
 		for _, ci := range core.Calls(f) {
 			o := core.CalleeObj(ci)
@@ -1270,7 +1272,31 @@ func (x *c03ctx) runK4() {
 			case c03xpathTotal[name]:
 				c.OK("K4", key, pos, "does not evaluate (compilation errors are returned; Select/Current only build or read the iterator)")
 			case c03xpathEval[name]:
+				// an evaluation inside an iterator closure / unexported helper that is only ever invoked by exported
+				// functions is an evaluation by each of these exported functions (one obligation per owner and site)
+				if owners := x.k4owners(f); len(owners) > 0 {
+					for _, w := range owners {
+						n++
+						evalBy[w]++
+						wkey := core.FuncKey(w) + " calls xpath." + name
+						via := " (the call sits in " + core.FuncKey(f) + ", which only " + core.FuncKey(w) + " and other exported functions invoke)"
+						switch {
+						case c03deferRecoverDominates(f, ci):
+							c.OK("K4", wkey, pos, "dominated by a deferred recover in the same function"+via)
+						case !x.k4unprotectedVia(w, f):
+							c.OK("K4", wkey, pos, "every call chain from the entry points passes a deferred recover before this evaluation"+via)
+						default:
+							chain := []string{core.FuncKey(f), core.FuncKey(w)}
+							for g := w; unprot[g] != g && unprot[g] != nil && len(chain) < 12; g = unprot[g] {
+								chain = append(chain, core.FuncKey(unprot[g]))
+							}
+							c.Bad("K4", wkey, pos, "the xpath engine reports evaluation errors by panicking (e.g. numeric comparison against empty text) and no recover() protects the chain "+strings.Join(chain, " <- "))
+						}
+					}
+					continue
+				}
 				n++
+				evalBy[f]++
 				if c03deferRecoverDominates(f, ci) {
 					c.OK("K4", key, pos, "dominated by a deferred recover in the same function")
 					continue
@@ -1290,8 +1316,21 @@ func (x *c03ctx) runK4() {
 		}
 	}
 	c.Floor("K4", 4, "xpath API calls in idr/query.go and navigator.go")
-	if n < 4 {
-		c.Unresolved("K4", "xpath evaluation sites", fmt.Sprintf("only %d evaluating call(s) found; MatchAny/MatchAll/MatchSingle are expected to evaluate", n))
+	// anchor by role: each exported query wrapper of package idr (exported API, looked up by name) evaluates
+	var missing []string
+	for _, want := range []string{"MatchAll", "MatchAny", "MatchSingle"} {
+		found := false
+		for w, k := range evalBy {
+			if k > 0 && w.Parent() == nil && w.Signature.Recv() == nil && w.Name() == want && w.Pkg != nil && w.Pkg.Pkg.Name() == "idr" {
+				found = true
+			}
+		}
+		if !found {
+			missing = append(missing, want)
+		}
+	}
+	if n < 3 || len(missing) > 0 {
+		c.Unresolved("K4", "xpath evaluation sites", fmt.Sprintf("only %d evaluating call(s) found; MatchAny/MatchAll/MatchSingle are expected to evaluate (none found for: %s)", n, strings.Join(missing, ", ")))
 	}
 }
 
